@@ -41,6 +41,7 @@ VParse(x) ==
    \o (IF ~ok THEN FailIf(~Balanced(Ledger(x.mem)), "C03", "blocks left allocated (or wrongly released) after a failed parse") ELSE <<>>)
    \o FailIf(~NoFrees(x.refree), "C03", "repeated free-members released something")
    \o FailIf(x.fault # 0, "C03", "memory fault during the call")
+   \o FailIf(x.fault # 0 /\ acc, "C02", "memory fault while parsing a valid URI reference: no components were delivered")
 
 \* the stand-alone IPv4 parser: succeeds exactly on IPv4address (RFC 3986), with the octets by value; never reads outside the range
 VIp4(x) == LET ok == Matches("IPv4address", x.in) IN
